@@ -97,6 +97,7 @@ async def _scenario(workload, state, stop_at, obs, loop, net):
             kw["enable_idempotence"] = True
         if workload == "producer_txn":
             kw["transactional_id"] = "tx"
+            kw["linger_ms"] = 300      # commits flush lingering batches early: their linger timers must not outlive stop()
         client = AIOKafkaProducer(**kw)
         await client.start()
 
@@ -256,10 +257,24 @@ async def _scenario(workload, state, stop_at, obs, loop, net):
     for h in loop.pending_timers():
         cb = getattr(h._callback, "_v_inner", h._callback)
         r = repr(cb)
-        if "aiokafka" in r or "AIOKafka" in r:
+        if "aiokafka" in r or "AIOKafka" in r or _client_callback(cb):
             timers.append(r[:120])
     obs["left_timers"] = timers
     obs["left_transports"] = len([tr for tr in net.open_transports if getattr(tr._peer, "tag", None) == "main"])
+
+
+def _client_callback(cb):
+    """Is this timer callback a function/method defined by the client library?  (repr() of a plain function or
+    staticmethod does not name its module.)"""
+    import functools
+    for _ in range(4):
+        if isinstance(cb, functools.partial):
+            cb = cb.func
+            continue
+        break
+    mods = [getattr(cb, "__module__", None), getattr(getattr(cb, "__func__", None), "__module__", None),
+            getattr(type(getattr(cb, "__self__", None)), "__module__", None)]
+    return any(isinstance(m, str) and m.startswith("aiokafka") for m in mods)
 
 
 def run(workload, state, stop_at):
